@@ -10,6 +10,7 @@ import (
 
 	"verif/lib/ev"
 	"verif/lib/mc"
+	"verif/lib/refgeom"
 )
 
 var (
@@ -244,6 +245,19 @@ func main() {
 			ca := geo.Area(orb.Collection{orb.Polygon{outer, closed}, closed, orb.Point{1, 1}, orb.LineString{{0, 0}, {1, 1}}, orb.Collection{orb.Polygon{closed}}})
 			if math.Abs(ca-(pa+2*math.Abs(base))) > 1e-9*oa {
 				c.Failf("collection-area", "Area(collection) = %v, want %v | %v", ca, pa+2*math.Abs(base), ring)
+			}
+			// read-only and layout-independent: the same values with all rings as windows of one shared buffer
+			for _, lg := range []orb.Geometry{orb.Polygon{outer[:len(outer)-1], ring}, orb.MultiPolygon{{ring}, {closed, ring}}, orb.Collection{ring, orb.LineString(ring)}} {
+				w, verify := refgeom.Windowed(lg)
+				wa, wl, wh := geo.Area(w), geo.Length(w), geo.LengthHaversine(w)
+				if d := verify(); d != "" {
+					c.Failf("measure-writes", "a geodesic measure wrote outside its argument: %s | %T built from %v", d, lg, ring)
+					break
+				}
+				if wa != geo.Area(lg) || wl != geo.Length(lg) || wh != geo.LengthHaversine(lg) {
+					c.Failf("measure-layout", "geodesic measures differ when the rings share one buffer: area %v/%v length %v/%v | %T built from %v", wa, geo.Area(lg), wl, geo.Length(lg), lg, ring)
+					break
+				}
 			}
 			// length: the sum of segment distances, for every kind that holds the ring
 			sl, sh2, ol, oh := 0.0, 0.0, 0.0, 0.0
